@@ -96,7 +96,7 @@ B("C04-b03", "tail move source and destination swapped", TDF,
   "        self.handler.seek(oldEntry.offset, 0)\n        temp = self.handler.read()\n        self.handler.seek(oldEntry.offset + oldEntry.size, 0)", expect="shift-consistency")
 B("C04-b04", "comment carried by truthiness", TDF, "comment = comment if comment is not None else old_entry.comment", "comment = comment or old_entry.comment", expect="comment-carry")
 B("C04-b05", "replace_block drops the comment", TDF, "self.add_block(newBlock, comment)", "self.add_block(newBlock)", expect="comment-carry")
-B("C04-b06", "TdfEntry._write drops the comment", TDF, "        BTSString.bwrite(file, 256, self.comment)", "        BTSString.bwrite(file, 256, \"\")", expect="comment")
+B("C04-b06", "TdfEntry._write drops the comment", TDF, "        BTSString.bwrite(file, 256, self.comment)", "        BTSString.bwrite(file, 256, \"\")", expect="entry-codec-symmetry")
 B("C04-b07", "two block types dispatched to one class", TDF, "    elif block_type == BlockType.forceAndTorqueData:\n        return ForceTorque3D", "    elif block_type == BlockType.forceAndTorqueData:\n        return Data3D", expect="dispatch-exhaustive")
 B("C04-b08", "data2D dispatched to the stub in tdfBlock", TDF, "from basictdf.tdfData2D import Data2D\n", "from basictdf.tdfBlock import Data2D\n", expect="dispatch")
 B("C04-b09", "table shift by the removed offset instead of its size", TDF, "entry.offset -= oldEntry.size", "entry.offset -= oldEntry.offset", expect="shift-consistency")
